@@ -442,6 +442,10 @@ func (e *Engine) globalInit(g *ssa.Global) *globalInitInfo {
 							return &globalInitInfo{vs.Values[i], p.TypesInfo}
 						case *ast.UnaryExpr:
 							return &globalInitInfo{vs.Values[i], p.TypesInfo}
+						case *ast.CallExpr:
+							if id, ok := vs.Values[i].(*ast.CallExpr).Fun.(*ast.Ident); ok && id.Name == "make" {
+								return &globalInitInfo{vs.Values[i], p.TypesInfo}
+							}
 						}
 						if tv, ok := p.TypesInfo.Types[vs.Values[i]]; ok && tv.Value != nil {
 							return &globalInitInfo{vs.Values[i], p.TypesInfo}
